@@ -1,7 +1,329 @@
 import CB.Driver.Util
-namespace CB
+import CB.Model.Encoding
+namespace CB.Encoding
+open CB
 
-/-- operations of property C16 (op names start with `c16.`) -/
-def dispatchC16 : Dispatch := fun _ _ => none
+/-! Driver for C16.  Every line is printed as `L1 ;; L0`: L1 = the model mirroring the code
+    (CB/Model/Encoding.lean, first half), L0 = the positional spec (second half). -/
+
+namespace D16
+
+def both (l1 l0 : String) : Option String := some (l1 ++ " ;; " ++ l0)
+
+def optHex : Option (List Nat) → String
+  | some l => limbsHex l
+  | none => "panic"
+
+def optNatHex : Option Nat → String
+  | some v => natToHex v
+  | none => "panic"
+
+def wordsTok (l : List Nat) : String := if l.isEmpty then "-" else ",".intercalate (l.map natToHex)
+
+def exceptTok : Except DecodeError (List Nat) → String
+  | .ok l => limbsHexLen l
+  | .error e => "err:" ++ e.name
+
+def specExceptTok : Except DecodeError (Nat × Nat) → String
+  | .ok (n, v) => s!"{n}:{natToHex v}"
+  | .error e => "err:" ++ e.name
+
+def allBytes (bs : List Nat) : Bool := bs.all (· < 256)
+
+/-- formatting kinds: (L1 text, L0 text) for a fixed-width value of `l.length` limbs -/
+def fmtKind (name : String) (kind : String) (l : List Nat) : Option (List Nat × List Nat) :=
+  let k := 16 * l.length
+  let v := val l
+  let nm := name.toList.map Char.toNat
+  match kind with
+  | "x" => some (fmtHex false false l, specHexText false k v)
+  | "X" => some (fmtHex true false l, specHexText true k v)
+  | "d" => some (fmtHex true false l, specHexText true k v)
+  | "#x" => some (fmtHex false true l, [48, 120] ++ specHexText false k v)
+  | "#X" => some (fmtHex true true l, [48, 120] ++ specHexText true k v)
+  | "b" => some (fmtBin false l, specBinText (64 * l.length) v)
+  | "#b" => some (fmtBin true l, [48, 98] ++ specBinText (64 * l.length) v)
+  | "dbg" => some (fmtDebug nm (fmtHex true false l), nm ++ [40, 48, 120] ++ specHexText true k v ++ [41])
+  | _ => none
+
+def boxedFmtKind (kind : String) (l : List Nat) : Option (List Nat × List Nat) :=
+  let l0 := if l.isEmpty then [0] else l      -- a zero-limb value prints like one zero limb
+  let k := 16 * l0.length
+  let v := val l0
+  let nm := "BoxedUint".toList.map Char.toNat
+  match kind with
+  | "x" => some (boxedFmtHex false false l, specHexText false k v)
+  | "X" => some (boxedFmtHex true false l, specHexText true k v)
+  | "d" => some (boxedFmtHex true false l, specHexText true k v)
+  | "#x" => some (boxedFmtHex false true l, [48, 120] ++ specHexText false k v)
+  | "#X" => some (boxedFmtHex true true l, [48, 120] ++ specHexText true k v)
+  | "b" => some (boxedFmtBin false l, specBinText (64 * l0.length) v)
+  | "#b" => some (boxedFmtBin true l, [48, 98] ++ specBinText (64 * l0.length) v)
+  | "dbg" => some (fmtDebug nm (boxedFmtHex true false l), nm ++ [40, 48, 120] ++ specHexText true k v ++ [41])
+  | _ => none
+
+def primBits : String → Option Nat
+  | "u8" | "i8" => some 8
+  | "u16" | "i16" => some 16
+  | "u32" | "i32" => some 32
+  | "u64" | "i64" | "word" => some 64
+  | "u128" | "i128" | "wide_word" => some 128
+  | _ => none
+
+def optNz (o : Option (List Nat)) : String :=
+  match o with
+  | none => "panic"
+  | some l => match nzNew l with
+    | some l => limbsHex l
+    | none => "none"
+
+end D16
+end CB.Encoding
+
+namespace CB
+open CB.Encoding CB.Encoding.D16
+
+def dispatchC16 : Dispatch := fun op args =>
+  match op, args with
+  -- ---------------------------------------------------------------- Limb
+  | "c16.l.to_be_bytes", [w] =>
+    match hexToNat? w with
+    | some w => both (bytesToTok (wordToBeBytes w)) (bytesToTok (specBeBytes 8 w))
+    | _ => badArgs
+  | "c16.l.to_le_bytes", [w] =>
+    match hexToNat? w with
+    | some w => both (bytesToTok (wordToLeBytes w)) (bytesToTok (specLeBytes 8 w))
+    | _ => badArgs
+  | "c16.l.from_be_bytes", [b] =>
+    match tokToBytes? b with
+    | some b => if b.length = 8 then both (natToHex (wordFromBeBytes b)) (natToHex (beVal b)) else badArgs
+    | _ => badArgs
+  | "c16.l.from_le_bytes", [b] =>
+    match tokToBytes? b with
+    | some b => if b.length = 8 then both (natToHex (wordFromLeBytes b)) (natToHex (beVal b.reverse)) else badArgs
+    | _ => badArgs
+  | "c16.l.fmt", [kind, w] =>
+    match hexToNat? w with
+    | some w => match fmtKind "Limb" kind [w % B] with
+      | some (a, b) => both (bytesToTok a) (bytesToTok b)
+      | none => badArgs
+    | _ => badArgs
+  -- ---------------------------------------------------------------- Uint: bytes
+  | "c16.u.to_be_bytes", [n, v] =>
+    match n.toNat?, hexToNat? v with
+    | some n, some v => both (bytesToTok (uintToBeBytes (toLimbs n v))) (bytesToTok (specBeBytes (8 * n) v))
+    | _, _ => badArgs
+  | "c16.u.to_le_bytes", [n, v] =>
+    match n.toNat?, hexToNat? v with
+    | some n, some v => both (bytesToTok (uintToLeBytes (toLimbs n v))) (bytesToTok (specLeBytes (8 * n) v))
+    | _, _ => badArgs
+  | "c16.u.from_be_slice", [n, b] | "c16.u.from_be_bytes", [n, b] =>
+    match n.toNat?, tokToBytes? b with
+    | some n, some b =>
+      if op = "c16.u.from_be_bytes" ∧ b.length ≠ 8 * n then badArgs else
+      both (optHex (fromBeSlice n b)) (if b.length = 8 * n then natToHex (beVal b) else "panic")
+    | _, _ => badArgs
+  | "c16.u.from_le_slice", [n, b] | "c16.u.from_le_bytes", [n, b] =>
+    match n.toNat?, tokToBytes? b with
+    | some n, some b =>
+      if op = "c16.u.from_le_bytes" ∧ b.length ≠ 8 * n then badArgs else
+      both (optHex (fromLeSlice n b)) (if b.length = 8 * n then natToHex (beVal b.reverse) else "panic")
+    | _, _ => badArgs
+  -- ---------------------------------------------------------------- Uint / Int / Odd / NonZero: hex
+  | "c16.u.from_be_hex", [n, t] | "c16.i.from_be_hex", [n, t] =>
+    match n.toNat?, tokToBytes? t with
+    | some n, some t => both (optHex (fromBeHex n t)) (optNatHex (specFromBeHex n t))
+    | _, _ => badArgs
+  | "c16.u.from_le_hex", [n, t] =>
+    match n.toNat?, tokToBytes? t with
+    | some n, some t => both (optHex (fromLeHex n t)) (optNatHex (specFromLeHex n t))
+    | _, _ => badArgs
+  | "c16.odd.from_be_hex", [n, t] =>
+    match n.toNat?, tokToBytes? t with
+    | some n, some t =>
+      both (optHex (oddFromBeHex n t))
+        (optNatHex ((specFromBeHex n t).bind fun v => if v % 2 = 1 then some v else none))
+    | _, _ => badArgs
+  | "c16.odd.from_le_hex", [n, t] =>
+    match n.toNat?, tokToBytes? t with
+    | some n, some t =>
+      both (optHex (oddFromLeHexAsWritten n t))
+        (optNatHex ((specFromLeHex n t).bind fun v => if v % 2 = 1 then some v else none))
+    | _, _ => badArgs
+  | "c16.nz.from_be_byte_array", [n, b] | "c16.nz.from_be_bytes", [n, b] =>
+    match n.toNat?, tokToBytes? b with
+    | some n, some b =>
+      if b.length ≠ 8 * n then badArgs else
+      both (optNz (fromBeSlice n b)) (if beVal b = 0 then "none" else natToHex (beVal b))
+    | _, _ => badArgs
+  | "c16.nz.from_le_bytes", [n, b] =>
+    match n.toNat?, tokToBytes? b with
+    | some n, some b =>
+      if b.length ≠ 8 * n then badArgs else
+      both (optNz (fromLeSlice n b)) (if beVal b = 0 then "none" else natToHex (beVal b.reverse))
+    | _, _ => badArgs
+  | "c16.nz.from_le_byte_array", [n, b] =>
+    -- AS WRITTEN (src/non_zero.rs:193-195): calls `T::from_be_byte_array`
+    match n.toNat?, tokToBytes? b with
+    | some n, some b =>
+      if b.length ≠ 8 * n then badArgs else
+      both (optNz (fromBeSlice n b)) (if beVal b = 0 then "none" else natToHex (beVal b.reverse))
+    | _, _ => badArgs
+  -- ---------------------------------------------------------------- words
+  | "c16.u.words", [n, v] =>
+    match n.toNat?, hexToNat? v with
+    | some n, some v =>
+      let l := toLimbs n v
+      both (wordsTok (toWords (fromWords l))) (wordsTok ((List.range n).map fun i => v / B ^ i % B))
+    | _, _ => badArgs
+  -- ---------------------------------------------------------------- primitives
+  | "c16.u.from_prim", [n, ty, v] =>
+    match n.toNat?, primBits ty, hexToNat? v with
+    | some n, some bits, some v =>
+      if v ≥ 2 ^ bits then badArgs else
+      if bits = 128 then both (optHex (fromU128 n v)) (if n ≥ 2 then natToHex v else "panic")
+      else both (optHex (fromWord n v)) (if n ≥ 1 then natToHex v else "panic")
+    | _, _, _ => badArgs
+  | "c16.u.to_u64", [v] =>
+    match hexToNat? v with
+    | some v => both (natToHex (toU64 (toLimbs 1 v))) (natToHex (v % 2 ^ 64))
+    | _ => badArgs
+  | "c16.u.to_u128", [v] =>
+    match hexToNat? v with
+    | some v => both (natToHex (toU128 (toLimbs 2 v))) (natToHex (v % 2 ^ 128))
+    | _ => badArgs
+  | "c16.i.from_prim", [n, ty, v] =>
+    match n.toNat?, primBits ty, hexToNat? v with
+    | some n, some bits, some v =>
+      if v ≥ 2 ^ bits then badArgs else
+      let sv := signedVal bits v
+      if bits = 128 then
+        let fits := decide (-((2 : Int) ^ (64 * n - 1)) ≤ sv ∧ sv < (2 : Int) ^ (64 * n - 1))
+        both (limbsHex (intFromI128 n v)) (if fits then natToHex (ofInt n sv) else "panic")
+      else both (optHex (intFromPrim bits n v)) (if n ≥ 1 then natToHex (ofInt n sv) else "panic")
+    | _, _, _ => badArgs
+  | "c16.i.to_i64", [v] =>
+    match hexToNat? v with
+    | some v => both (natToHex (toU64 (toLimbs 1 v))) (natToHex (v % 2 ^ 64))
+    | _ => badArgs
+  | "c16.i.to_i128", [v] =>
+    match hexToNat? v with
+    | some v => both (natToHex (toU128 (toLimbs 2 v))) (natToHex (v % 2 ^ 128))
+    | _ => badArgs
+  -- ---------------------------------------------------------------- concat / split / resize
+  | "c16.u.concat", [l, h, lo, hi] =>
+    match l.toNat?, h.toNat?, hexToNat? lo, hexToNat? hi with
+    | some l, some h, some lo, some hi =>
+      both (limbsHex (concatMixed (l + h) (toLimbs l lo) (toLimbs h hi)))
+        (natToHex (lo % B ^ l + B ^ l * (hi % B ^ h)))
+    | _, _, _, _ => badArgs
+  | "c16.u.split", [l, h, x] =>
+    match l.toNat?, h.toNat?, hexToNat? x with
+    | some l, some h, some x =>
+      let r := splitMixed l h (toLimbs (l + h) x)
+      both s!"{limbsHex r.1} {limbsHex r.2}" s!"{natToHex (x % B ^ l)} {natToHex (x / B ^ l % B ^ h)}"
+    | _, _, _ => badArgs
+  | "c16.u.resize", [n, t, v] =>
+    match n.toNat?, t.toNat?, hexToNat? v with
+    | some n, some t, some v =>
+      both (limbsHex (uintResize t (toLimbs n v))) (natToHex (v % B ^ n % B ^ t))
+    | _, _, _ => badArgs
+  | "c16.i.resize", [n, t, v] =>
+    match n.toNat?, t.toNat?, hexToNat? v with
+    | some n, some t, some v =>
+      let l := toLimbs n v
+      both (limbsHex (intResize t l)) (natToHex (ofInt t (toInt l)))
+    | _, _, _ => badArgs
+  -- ---------------------------------------------------------------- formatting
+  | "c16.u.fmt", [n, kind, v] | "c16.i.fmt", [n, kind, v] =>
+    match n.toNat?, hexToNat? v with
+    | some n, some v =>
+      match fmtKind (if op = "c16.u.fmt" then "Uint" else "Int") kind (toLimbs n v) with
+      | some (a, b) => both (bytesToTok a) (bytesToTok b)
+      | none => badArgs
+    | _, _ => badArgs
+  | "c16.b.fmt", [n, kind, v] =>
+    match n.toNat?, hexToNat? v with
+    | some n, some v =>
+      match boxedFmtKind kind (toLimbs n v) with
+      | some (a, b) => both (bytesToTok a) (bytesToTok b)
+      | none => badArgs
+    | _, _ => badArgs
+  -- ---------------------------------------------------------------- serde (bincode)
+  | "c16.u.serde_ser", [n, v] =>
+    match n.toNat?, hexToNat? v with
+    | some n, some v => both (bytesToTok (serdeSerialize (toLimbs n v))) (bytesToTok (specLeBytes 8 (8 * n) ++ specLeBytes (8 * n) v))
+    | _, _ => badArgs
+  | "c16.u.serde_de", [n, b] =>
+    match n.toNat?, tokToBytes? b with
+    | some n, some b =>
+      both (match serdeDeserialize n b with | some l => limbsHex l | none => "err:serde")
+        (if b.length < 8 + 8 * n ∨ beVal (b.take 8).reverse ≠ 8 * n then "err:serde"
+         else natToHex (beVal ((b.drop 8).take (8 * n)).reverse))
+    | _, _ => badArgs
+  -- ---------------------------------------------------------------- BoxedUint
+  | "c16.b.from_be_slice", [bp, b] =>
+    match bp.toNat?, tokToBytes? b with
+    | some bp, some b => both (exceptTok (boxedFromBeSlice b bp)) (specExceptTok (specBoxedDecode b.length bp (beVal b)))
+    | _, _ => badArgs
+  | "c16.b.from_le_slice", [bp, b] =>
+    match bp.toNat?, tokToBytes? b with
+    | some bp, some b => both (exceptTok (boxedFromLeSlice b bp)) (specExceptTok (specBoxedDecode b.length bp (beVal b.reverse)))
+    | _, _ => badArgs
+  | "c16.b.to_be_bytes", [n, v] =>
+    match n.toNat?, hexToNat? v with
+    | some n, some v => both (bytesToTok (uintToBeBytes (toLimbs n v))) (bytesToTok (specBeBytes (8 * n) v))
+    | _, _ => badArgs
+  | "c16.b.to_le_bytes", [n, v] =>
+    match n.toNat?, hexToNat? v with
+    | some n, some v => both (bytesToTok (uintToLeBytes (toLimbs n v))) (bytesToTok (specLeBytes (8 * n) v))
+    | _, _ => badArgs
+  | "c16.b.from_be_hex", [bp, t] =>
+    match bp.toNat?, tokToBytes? t with
+    | some bp, some t =>
+      let l1 := match boxedFromBeHex t bp with
+        | none => "panic"
+        | some (l, ok) => if ok then limbsHexLen l else "none"
+      let l0 := if t.length = 16 * (bp / 64) then
+          (match hexDigits? t with
+           | some ds => s!"{bp / 64}:{natToHex (beValBase 16 ds)}"
+           | none => "none")
+        else "panic"
+      both l1 l0
+    | _, _ => badArgs
+  | "c16.b.widen", [n, v, bp] =>
+    match n.toNat?, hexToNat? v, bp.toNat? with
+    | some n, some v, some bp =>
+      both (match boxedWiden (toLimbs n v) bp with | some l => limbsHexLen l | none => "panic")
+        (if bp ≥ 64 * n then s!"{max 1 ((bp + 63) / 64)}:{natToHex (v % B ^ n)}" else "panic")
+    | _, _, _ => badArgs
+  | "c16.b.shorten", [n, v, bp] =>
+    match n.toNat?, hexToNat? v, bp.toNat? with
+    | some n, some v, some bp =>
+      let t := max 1 ((bp + 63) / 64)
+      both (match boxedShorten (toLimbs n v) bp with | some l => limbsHexLen l | none => "panic")
+        (if bp ≤ 64 * n ∧ t ≤ n then s!"{t}:{natToHex (v % B ^ n % B ^ t)}" else "panic")
+    | _, _, _ => badArgs
+  | "c16.b.from_prim", [ty, v] =>
+    match primBits ty, hexToNat? v with
+    | some bits, some v =>
+      if v ≥ 2 ^ bits then badArgs else
+      let n := if bits = 128 then 2 else 1
+      both (limbsHexLen (boxedOfVec ((if bits = 128 then fromU128 2 v else fromWord 1 v).getD []))) s!"{n}:{natToHex v}"
+    | _, _ => badArgs
+  | "c16.b.from_uint", [n, v] | "c16.b.from_vec", [n, v] =>
+    match n.toNat?, hexToNat? v with
+    | some n, some v => both (limbsHexLen (boxedOfVec (toLimbs n v))) s!"{max 1 n}:{natToHex (v % B ^ n)}"
+    | _, _ => badArgs
+  | "c16.b.from_slice", [n, v] =>
+    match n.toNat?, hexToNat? v with
+    | some n, some v => both (limbsHexLen (fromWords (toLimbs n v))) s!"{n}:{natToHex (v % B ^ n)}"
+    | _, _ => badArgs
+  | "c16.b.words", [n, v] =>
+    match n.toNat?, hexToNat? v with
+    | some n, some v =>
+      both (wordsTok (toWords (toLimbs n v))) (wordsTok ((List.range n).map fun i => v / B ^ i % B))
+    | _, _ => badArgs
+  | _, _ => none
 
 end CB
